@@ -307,14 +307,14 @@ def run(tier, rep):
     rep.tlc("Progress[no fallback, expected counter-example]", rn)
     jobs, fam = build_jobs(tier, rep)
     # stage 1: plain
-    traces = C.pmap(plain, jobs, chunk=500)
+    traces = C.pmap(plain, jobs, chunk=500, limit=0)
     suspects = [k for k, t in enumerate(traces) if t["ev"][-1][1] == "guard"]
     skipped = [k for k, t in enumerate(traces) if t["ev"][-1][1] == "skipped"]
     suspects.sort(key=lambda k: len(jobs[k][2]) if isinstance(jobs[k][2], (str, bytes)) else 0)
     rerun = suspects[:48]
     # deterministic re-run under a step budget decides; guard hits beyond the first 48 are not judged
     rj = [tuple(jobs[k]) + (True,) for k in rerun]
-    for k, t in zip(rerun, C.pmap(observed, rj, chunk=1) if len(rj) > 2 else [observed(j) for j in rj]):
+    for k, t in zip(rerun, C.pmap(observed, rj, chunk=1, limit=0) if len(rj) > 2 else [observed(j) for j in rj]):
         traces[k] = t
     confirmed = [k for k in rerun if traces[k]["ev"][-1][1] == "budget"]
     if skipped and not confirmed:
@@ -332,7 +332,7 @@ def run(tier, rep):
     ojobs = [j for j in jobs if isinstance(j[2], str) and j[4] and (j[2] in famset or len(j[2]) > 150 or rnd.random() < 0.05)]
     if tier == "quick" and len(ojobs) > 30000:
         ojobs = ojobs[:30000]
-    otraces = C.pmap(observed, ojobs, chunk=100)
+    otraces = C.pmap(observed, ojobs, chunk=100, limit=0)
     verdicts, st = C.validate_traces("ProgressTrace", otraces, shard=3000)
     rep.tlc_stats("ProgressTrace[dispatch loops]", st, len(otraces))
     _report(rep, ojobs, verdicts, "observed")
